@@ -78,6 +78,22 @@ def handleCall (P : Prims) (call : List String) : String :=
   | some c => showOutcome (run P c)
   | none => "bad-op"
 
+/-- split a token list at ";" tokens -/
+def calls (toks : List String) : List (List String) :=
+  let rec go (cur : List String) (acc : List (List String)) : List String → List (List String)
+    | [] => (cur.reverse :: acc).reverse
+    | ";" :: r => go [] (cur.reverse :: acc) r
+    | t :: r => go (t :: cur) acc r
+  go [] [] toks
+
+/-- `C17 hist <call> ; <call> ; …` (one caller, one call after the other) and `C17 par <goroutines> <rounds> <call> ; …`
+(the same calls made by several goroutines at once): the model's `runHist` — every call is answered by `run`,
+whatever came before and whoever else is calling (`C17_hist_answer`, `C17_par_answer`). -/
+def handleHist (P : Prims) (toks : List String) : String :=
+  match (calls toks).mapM parseCall with
+  | some cs => " ; ".intercalate ((runHist P cs).map showOutcome)
+  | none => "bad-op"
+
 /-- `C17 <fn> <code points>… | table` or, for arguments that are arbitrary BYTE strings (invalid UTF-8
 included), `C17 b <fn> <hex bytes>… | table`: the bytes are decoded the way Go's `range` does
 (`decodeUtf8`) and the call runs on the resulting code points. -/
@@ -94,6 +110,8 @@ def handle (toks : List String) : String :=
         match args.mapM unhexBytes? with
         | some bss => handleCall P (fn :: bss.map (fun bs => hexRunes (decodeUtf8 bs)))
         | none => "bad-op"
+      | "hist" :: rest => handleHist P rest
+      | "par" :: _ :: _ :: rest => handleHist P rest
       | _ => handleCall P call
 
 end Driver.C17
